@@ -97,6 +97,9 @@ def glob_paths(d, glob):
 
 
 REG.stub("glob.iglob", _iglob)
+# glob.escape(s): in this model a pattern `<directory>/<glob>` is identified with the directory it is meant to search (the glob
+# stub's assumption); that the directory part really is literal is the syntactic obligation syn#searched_directory_is_taken_literally
+REG.stub("glob.escape", lambda run, args, kwargs, node: run.coerce(args[0], TStr))
 # pathlib's own glob: NOT the same relation as glob.iglob (it does not omit hidden entries) - nothing is assumed about it
 REG.stub(("method", "Path", "glob"), lambda run, obj, args, kwargs, node: Val(PATHS, ops.uf("pathlib_glob", PATH.sort(), S, PATHS.sort())(obj.t, run.coerce(args[0], TStr).t)))
 REG.stub(("method", "Path", "rglob"), lambda run, obj, args, kwargs, node: Val(PATHS, ops.uf("pathlib_rglob", PATH.sort(), S, PATHS.sort())(obj.t, run.coerce(args[0], TStr).t)))
@@ -182,6 +185,8 @@ def _sd_entry(run, fr):
     for ax in (
         # A-DJ (glob): every result lies below the searched directory (>= 1 relative part) and has no hidden part
         z3.ForAll([d, i], z3.Implies(z3.And(0 <= i, i < z3.Length(glob_paths(d, glob))), z3.And(z3.Length(parts) >= 1, z3.Not(hidden(parts))))),
+        # A-DJ (pathlib): Path(str(p)) == p
+        z3.ForAll([d], path_of_str(str_of_path(d)) == d, patterns=[str_of_path(d)]),
         # definitional: (wj p, wi p) is the FIRST place (directory index, result index) at which the path p occurs as a public
         # file - it exists whenever p occurs as one at all (least element of a non-empty set of pairs; conservative)
         z3.ForAll([j, i], z3.Implies(z3.And(in_range(j, i), ok(dirs[j], glob, i)),
@@ -233,6 +238,25 @@ REG.contract(
            1: Loop(inv=[_inner_inv], variant="len(_seq1) - _i1")},
     ensures={"exactly_the_public_files_of_the_directories_each_once": lambda c: _sd_state(c, c["result"].t, z3.Length(c.old("dirs").t), z3.IntVal(0))},
 )
+
+
+def _syn_glob_dir_escaped():
+    """The glob stub's assumption - the results of iglob(<directory>/<glob>) are the paths BELOW that directory - holds for every
+    directory name only if the directory part of the pattern is made literal with glob.escape (a directory named `comp[1]` or
+    `x*y` is otherwise read as a pattern and matches nothing, or other directories).  Syntactic obligation on _search_dirs:
+    the directory enters the iglob pattern through glob.escape."""
+    import ast
+    from pyvc.repo import load_module
+    fn = load_module(MOD).funcs["_search_dirs"].node
+    calls = [n for n in ast.walk(fn) if isinstance(n, ast.Call) and ast.unparse(n.func) in ("glob.iglob", "glob.glob", "iglob")]
+    if not calls:
+        return False, "no glob.iglob call found in _search_dirs (the function was restructured: re-read it)"
+    bad = [ast.unparse(c.args[0]) for c in calls if "glob.escape(" not in ast.unparse(c.args[0]) or "directory" not in ast.unparse(c.args[0])]
+    return (not bad), (f"pattern built without glob.escape of the directory: {bad[0]}" if bad else f"{len(calls)} iglob call(s), directory escaped")
+
+
+REG.syntactic_check("syn#searched_directory_is_taken_literally", P, _syn_glob_dir_escaped,
+                    note="backs assumption A-DJ(glob) for directory names with glob meta-characters")
 
 
 def _lemma_kept_has_no_hidden_part():
